@@ -2,6 +2,7 @@
 T-tie: every translated hook implementation is checked by the verified dimension checker (coq/lib/Dim.v)
 against the hand-written table tools/dimtable.py.  Oracle: scaled twin runs on the implementation."""
 import json
+import os
 import logging
 import math
 import random
@@ -57,6 +58,25 @@ def groove_twins(chk, ks):
                 return
 
 
+def spline_twins(chk, ks):
+    """a contour table typed in whole millimetres (integers) and the same contour in other units"""
+    from pyroll.core import SplineGroove, Profile
+    table = [(0, 0), (5, 8), (15, 12), (30, 12), (40, 8), (45, 0)]
+
+    def describe(k):
+        pts = [(z * k, y * k) for z, y in table]
+        g = SplineGroove(pts, classifiers=['oval'])
+        p = Profile.from_groove(g, filling=0.9, gap=2 * k)
+        return [g.usable_width, g.width, g.depth, g.contour_line.length, float(g.local_depth(10 * k)), p.width, p.height], [g.cross_section.area, p.cross_section.area]
+    l1, a1 = describe(1)
+    for k in [2, 10, 1000] + list(ks):
+        l2, a2 = describe(k)
+        chk.cov['evaluations'] += 1
+        if any(abs(x / k - y) > 1e-9 * 45 for x, y in zip(l2, l1)) or any(abs(x / k ** 2 - y) > 1e-9 * 45 ** 2 for x, y in zip(a2, a1)):
+            return chk.fail('spline-scale', f"SplineGroove from an integer contour table scaled by {k} is not the scaled groove: lengths {[x / k for x in l2]} vs {l1}",
+                            {'k': k, 'table': table})
+
+
 def profile_twins(chk, ks):
     from pyroll.core import Profile
     makers = [
@@ -85,8 +105,11 @@ def flow_stress(self):
     return 50e6 * (1 + self.strain) ** 0.2 * self.roll_pass.strain_rate ** 0.1
 
 
-def make_sequence(k, three=False):
+def make_sequence(k, three=False, small=False):
     from pyroll.core import Roll, RollPass, ThreeRollPass, Transport, RoundGroove, CircularOvalGroove, PassSequence, Profile
+    if small:
+        # the same process at a fraction of the usual size (wire of 3 mm .. 0.3 mm instead of a 30 mm bar)
+        k = k * small
     if not three:
         seq = PassSequence([
             RollPass(label="Oval I", roll=Roll(groove=CircularOvalGroove(depth=8e-3 * k, r1=6e-3 * k, r2=40e-3 * k), nominal_radius=160e-3 * k,
@@ -151,13 +174,13 @@ class Grab(logging.Handler):
             self.msgs.append(re.sub(r"of .* after", "after", m))
 
 
-def sequence_twins(chk, ks, three):
+def sequence_twins(chk, ks, three, small=False):
     from pyroll.core import RollPass, ThreeRollPass
     lg = logging.getLogger("pyroll")
     old = lg.level
 
     def solve(k):
-        seq, ip = make_sequence(k, three)
+        seq, ip = make_sequence(k, three, small)
         h = Grab()
         lg.setLevel(logging.INFO)
         lg.addHandler(h)
@@ -223,6 +246,14 @@ def run(chk):
     profile_twins(chk, ks_geo)
     n1 = sequence_twins(chk, ks_seq, three=False)
     n2 = sequence_twins(chk, ks_seq[:1], three=True)
+    for base in (0.1, 0.03, 0.01):
+        n1 += sequence_twins(chk, ks_seq[:1] + [100.0], three=False, small=base)
+    spline_twins(chk, ks_geo)
+    # fail closed: an implementation that left the translatable fragment is no longer covered by the theorem
+    allow = set(open(os.path.join(os.path.dirname(os.path.dirname(os.path.abspath(__file__))), 'opaque_allowlist.txt')).read().split())
+    now = {o.split(' ')[0] for o in chk.x_stats.get('translator_TA', {}).get('opaque_list', [])}
+    for o in sorted(now - allow):
+        chk.unshown_add('newly-opaque implementation', f"{o} is no longer in the translatable fragment: its homogeneity is not shown")
     astm_finding(chk)
     chk.cov['distinct_nontrivial'] += len(GC.CATALOGUE) * len(ks_geo) + 5 * len(ks_geo) + len(ks_seq) + 1
     chk.x_stats['twin_runs'] = {'grooves': len(GC.CATALOGUE), 'scale_factors_geometry': ks_geo, 'scale_factors_sequences': ks_seq,
